@@ -101,6 +101,7 @@ def handle_violations(adapter, seed, violations, findings, tier="quick"):
         try:
             if isinstance(case, dict) and "rerun" in case:
                 raise RuntimeError("run-range case: nothing to minimise in-process")
+            core.start_minimise_clock()
             small = adapter.minimise(case, sig)
             # the minimised case must still fail the same way, in this process ...
             try:
